@@ -1,5 +1,5 @@
 """C09 - credential and PKI parsers are memory-safe and total on arbitrary bytes.
-Eleven libFuzzer targets (one per parser family), each with an ASN.1-aware custom mutator (asn1_mutator.h),
+Twelve libFuzzer targets (one per parser family), each with an ASN.1-aware custom mutator (asn1_mutator.h),
 seeded from /repo/testkeys (corpus/C09/<target>/, built by make_corpus.py); minimised reproducers of every
 finding live in corpus/C09/<target>/regress/ and are replayed on every run."""
 
@@ -35,5 +35,7 @@ PROP = dict(
         T('c09_dh_params', 'dh_params.cc', 4, 2700),
         T('c09_pem_decode', 'pem_decode.cc', 6, 2000),
         T('c09_load_keys_mem', 'load_keys_mem.cc', 8, 560, timeout=60, wraps=['psSha1Final']),
+        # structured bundles (2..6 pool certificates, any order) through the chain re-ordering loaders
+        T('c09_cert_bundle', 'cert_bundle.cc', 4, 400),
     ],
 )
